@@ -71,5 +71,19 @@ CHECKS["C30"] = _sem("Programs with annotations inside, on and outside [0,1] (li
                      "probability and log-probability semiring, valid (incl. boundary) => C01 numbers.",
                      "DESIGN.md §5 C30")
 
+CHECKS["C11"] = dict(
+    category="exploration",
+    text="Histories of add_atom / add_and / add_or (readonly and mutable) / add_disjunct / negate / add_name are run on a "
+         "real LogicFormula under option vectors (auto_compact, keep_order, keep_duplicates, keep_all, avoid_name_clash, "
+         "max_arity); after every call the real node table and returned key are recorded and TLC (JudgeBuilder.tla over "
+         "AOG.tla) checks MeaningPreserved: every key returned so far has, for every atom assignment, the well-founded "
+         "value its call has in the ideal (no folding, no sharing) graph - including keys returned before a later "
+         "add_disjunct.",
+    design_ref="DESIGN.md §5 C11",
+    note="Trusted: TLC + AOG.tla well-founded valuation, the recording wrapper. Histories <= 9 calls over 3 atoms; "
+         "no cycles through negation; add_disjunct's own return value is not treated as a key.",
+    technique="TLA+ spec of the ideal builder and AND/OR-graph meaning (AOG.tla) judged by TLC on recorded builder histories",
+)
+
 NOT_YET = "check not built yet in this round (planned in DESIGN.md §5); not claimed"
 NOT_APPLICABLE = {}
